@@ -86,6 +86,12 @@ func coerce2(a, b *Term) (*Term, *Term) {
 	if a.Sort == b.Sort {
 		return a, b
 	}
+	if a.Sort.IsBV() && b.Op == "int" {
+		return a, coerce(b, a.Sort)
+	}
+	if b.Sort.IsBV() && a.Op == "int" {
+		return coerce(a, b.Sort), b
+	}
 	if a.IsConst() {
 		return coerce(a, b.Sort), b
 	}
